@@ -148,6 +148,44 @@ def run_cases(ck, res, n_cases, n_interval):
         for k in range(len(exp)):
             if not enga.close(got[k], exp[k], scale * 100, rel=1e-8):
                 ck.fail(f'{name}/component{k}', f'{name}: component {k} is {got[k]!r}, the Cartesian definition gives {exp[k]!r}', inp, expected=exp[k], actual=got[k])
+    # ---- (b') fields that ARE a coordinate column (the leaf tensor itself, no autograd history): closed forms
+    LEAF = [
+        ('spherical', 'grad', lambda Q: [Q[0]], lambda a, b, c: [1.0, 0.0, 0.0]),
+        ('spherical', 'laplacian', lambda Q: [Q[0]], lambda a, b, c: [2.0 / a]),
+        ('spherical', 'grad', lambda Q: [Q[1]], lambda a, b, c: [0.0, 1.0 / a, 0.0]),
+        ('spherical', 'laplacian', lambda Q: [Q[1]], lambda a, b, c: [math.cos(b) / (a * a * math.sin(b))]),
+        ('spherical', 'grad', lambda Q: [Q[2]], lambda a, b, c: [0.0, 0.0, 1.0 / (a * math.sin(b))]),
+        ('spherical', 'laplacian', lambda Q: [Q[2]], lambda a, b, c: [0.0]),
+        ('cylindrical', 'grad', lambda Q: [Q[0]], lambda a, b, c: [1.0, 0.0, 0.0]),
+        ('cylindrical', 'laplacian', lambda Q: [Q[0]], lambda a, b, c: [1.0 / a]),
+        ('cylindrical', 'grad', lambda Q: [Q[1]], lambda a, b, c: [0.0, 1.0 / a, 0.0]),
+        ('cylindrical', 'laplacian', lambda Q: [Q[1]], lambda a, b, c: [0.0]),
+        ('cylindrical', 'grad', lambda Q: [Q[2]], lambda a, b, c: [0.0, 0.0, 1.0]),
+        ('cylindrical', 'laplacian', lambda Q: [Q[2]], lambda a, b, c: [0.0]),
+        ('spherical', 'div', lambda Q: [Q[0], 0 * Q[0], 0 * Q[0]], lambda a, b, c: [3.0]),
+        ('cylindrical', 'div', lambda Q: [Q[0], 0 * Q[0], Q[2]], lambda a, b, c: [3.0]),
+        ('cylindrical', 'curl', lambda Q: [0 * Q[0], Q[0], 0 * Q[0]], lambda a, b, c: [0.0, 0.0, 2.0]),
+        ('spherical', 'curl', lambda Q: [0 * Q[0], 0 * Q[0], Q[0]], lambda a, b, c: [math.cos(b) / math.sin(b), -2.0, 0.0]),
+    ]
+    for ci in range(max(16, n_cases // 8)):
+        system, op, mk, ex = LEAF[ci % len(LEAF)]
+        name = f'{system}_{op}'
+        q = rand_point(r, system)
+        Q = [enga.col(torch, [v]) for v in q]
+        inp = {'op': name, 'leaf_field_case': ci % len(LEAF), 'point': q}
+        try:
+            out = getattr(O, name)(*mk(Q), *Q)
+        except Exception as e:
+            ck.fail(f'{name}/raises', f'{name} raised {type(e).__name__} on a coordinate-column field: {e}', inp)
+            continue
+        out = [out] if hasattr(out, 'shape') else list(out)
+        got = [float(o.detach().reshape(-1)[0]) for o in out]
+        exp = ex(*q)
+        ck.add_case((name, 'leaf-field', ci % len(LEAF), str(q)))
+        for k in range(len(exp)):
+            if not enga.close(got[k], exp[k], 1 + abs(exp[k]), rel=1e-10):
+                ck.fail(f'{name}/component{k}/coordinate-field', f'{name} of a field that is a coordinate column itself: component {k} is {got[k]!r}, closed form {exp[k]!r}',
+                        inp, expected=exp[k], actual=got[k])
     # ---- (c) conversions
     for ci in range(max(10, n_cases // 4)):
         q = rand_point(r, 'spherical')
